@@ -946,7 +946,8 @@ fn c10_hist(input: &Input, obs: &mut Obs) -> Result<(), Fail> {
             let wts: [u32; 10] = if target_high { [14, 2, 1, 4, 2, 3, 2, 3, 1, 2] } else { [3, 10, 3, 3, 1, 4, 2, 2, 1, 2] };
             let op = s.weighted(&wts);
             // with a read-shut client around, the number of held connections is not known exactly
-            let mut burst_close = accepted.iter().any(|c| maybe(&w, *c));
+            let mut burst_close = accepted.iter().any(|c| maybe(&w, *c))
+                || (!w.untagged.is_empty() && accepted.iter().any(|c| !alive(&w, *c) && w.clients[*c].dirty));
             let mut new_conns: Vec<usize> = Vec::new();
             match op {
                 0 => {
@@ -1104,7 +1105,14 @@ fn c10_hist(input: &Input, obs: &mut Obs) -> Result<(), Fail> {
                 }
             }
             // release model: dead and fully answered connections are gone
-            accepted.retain(|c| alive(&w, *c) || maybe(&w, *c) || w.outstanding.iter().any(|o| o.c == *c));
+            // (an unanswered request whose tag was destroyed by the client's own garbage cannot be
+            // attributed, so every dead garbage-sending client may be the one kept for it)
+            accepted.retain(|c| {
+                alive(&w, *c)
+                    || maybe(&w, *c)
+                    || w.outstanding.iter().any(|o| o.c == *c)
+                    || (w.clients[*c].dirty && !w.untagged.is_empty())
+            });
             let serving = accepted.iter().filter(|c| alive(&w, **c)).count();
             if serving > 10 {
                 return Err(("over-capacity".into(), format!("{} clients are connected and unrefused at once", serving)));
